@@ -139,12 +139,23 @@ func (c *lruSessionCache) Get(sessionKey string) (*SessionState, bool) {
 		if elem == nil {
 			return nil, false
 		}
-		return elem.Value.(*lruSessionCacheEntry).state, true
+		return elem.Value.(*lruSessionCacheEntry).state.snapshot(), true
 	}
 
 	if elem, ok := c.m[sessionKey]; ok {
 		c.q.MoveToFront(elem)
-		return elem.Value.(*lruSessionCacheEntry).state, true
+		return elem.Value.(*lruSessionCacheEntry).state.snapshot(), true
 	}
 	return nil, false
+}
+
+// snapshot 返回会话的副本（主密钥单独拷贝）。缓存淘汰会话时会清零其主密钥，
+// 而此时其他连接的握手可能正在使用从缓存中取得的同一个会话：取得的必须是副本。
+func (s *SessionState) snapshot() *SessionState {
+	if s == nil {
+		return nil
+	}
+	cp := *s
+	cp.masterSecret = append([]byte(nil), s.masterSecret...)
+	return &cp
 }
